@@ -105,7 +105,7 @@ CLAIMS = {
     },
     'C19': {
         'text': 'Decides only the mechanism named in the anchors: numbering enters through translators, so no state is translated twice or not at all (KIND), the simulation result is indexed by the numbering map (SIMMAP), '
-                'and inclusion operands are renumbered by one shared counter with the map cleared in between (DISPATCH/sanitiser). The metamorphic laws themselves are not decided.',
+                'inclusion operands are renumbered by one shared counter with the map cleared in between (DISPATCH/sanitiser), and the necessary conditions for all inclusion selections to agree that are decided for C01/C07/C09 (dispatch tables, comparator duality, total worklist orders, per-level state of the sibling functors, frame reset, memo and macro-state cache soundness). The metamorphic laws themselves are not decided.',
         'note': 'trusted: clang 14 AST/CFG, exporter',
     },
     'C20': {
